@@ -144,3 +144,18 @@ check('C12',
       'rounding when the duration is divided by 24 or 60, which is outside the exact model. Plant / CHP ramps and run times are '
       'covered under C06.',
       'Coq proof + metamorphic implementation oracle (unit change) + differential correspondence', 'DESIGN.md 5 C12')
+check('C13',
+      'Theorems (any problem, any leader map, any merged point): a merged point stands for the fine point in which every variable '
+      'carries the value of its group leader; that point satisfies the equalities; merged rows evaluate on it exactly as the fine rows '
+      '(summed columns), the merged objective equals the fine objective (summed costs), merged limits are the means of the group '
+      'limits - so the periodic problem is the fine problem with the equalities added and the limits averaged. For coarse assets the '
+      'mapping spreads a coarse variable over its minor steps with weights dt_minor/dt_major that add up to one at a constant rate. '
+      'Per instance: the labels / leader map, merged vectors and minor-grid rows of the model builders are compared with the '
+      'implementation for every asset type accepting the options (one and two variables per step, transports with two rows per '
+      'variable, storages, multi-commodity); on the implementation the dispatch at box points and optima is checked for constant rate '
+      'inside coarse intervals and repetition across periods within durations, and the optimum is compared with the independently '
+      'written fine-grid LP with exactly those equalities (harness/ref.py), incl. day-coarse assets over 23 h / 25 h DST days and '
+      'daily periods within anchored weeks.',
+      TB + 'Claim domain: coarse assets with constant limits and no take periods, merged assets without holding cost and discounting '
+      '(the documented averaging covers limits and prices only).',
+      'Coq proof (merge as value-preserving substitution) + differential correspondence + independent reference LP', 'DESIGN.md 5 C13')
